@@ -71,6 +71,7 @@ ExactBCD(c) ==
     /\ c.alg \in {"parafac", "nn_parafac_hals", "tucker", "parafac2", "tr_als", "cmtf"}
     /\ ~c.sparsity /\ ~c.mask /\ ~c.sampled
     /\ ~c.penalised          \* with a ridge / l1 penalty the sweeps decrease the PENALISED objective, not the plain error
+    /\ ~c.reorth             \* orthogonalise=True re-orthogonalises the factors in the first sweeps: not an exact block step
 
 ----------------------------------------------------------------------------
 (* States and the successor function (shared with the trace specification).                         *)
@@ -165,7 +166,7 @@ vars == <<cfg, st>>
 CfgSpace(dummy) ==
     {[alg |-> a, order |-> Order, tol_on |-> t, ret |-> r, normalize |-> n, linesearch |-> l, callback |-> cb,
       fixed |-> f, init |-> i, cap |-> k, stagn |-> sg, algorithm |-> al, sparsity |-> FALSE, mask |-> FALSE, sampled |-> FALSE,
-      penalised |-> FALSE] :
+      penalised |-> FALSE, reorth |-> FALSE] :
         a \in Algs, t \in BOOLEAN, r \in BOOLEAN, n \in BOOLEAN, l \in BOOLEAN, cb \in BOOLEAN,
         f \in SUBSET (0..(Order - 1)), i \in {"svd", "user"}, k \in 0..MaxCap, sg \in {FALSE}, al \in {"fista"}}
 
